@@ -131,7 +131,9 @@ fn rec<'a>(
                                     let rel = (a - b).abs() / a.abs().max(b.abs());
                                     if rel > 1e-6 {
                                         differ = true;
-                                    } else if rel > 1e-12 {
+                                    } else if a != b {
+                                        // not bit-for-bit the same after normalisation: an exact
+                                        // comparison may tell them apart, a tolerant one need not
                                         ctx.dont_care =
                                             Some("chance probabilities differ by less than 1e-6");
                                     }
